@@ -27,6 +27,12 @@ class BuiltinMixin:
         if k: return self.call_function(st, k, [x], {}, n.lineno)
         raise Unsupported(f"len of {x.ty} at line {n.lineno}")
 
+    def bi_issubclass(self, st, a, kw, n):
+        """issubclass(c, C) on a class value: ghost predicate of (class value, class name) - nothing is known about it"""
+        names = self.dotted(n.args[1]) if not isinstance(n.args[1], ast.Tuple) else ",".join(self.dotted(e) or "?" for e in n.args[1].elts)
+        f = z3.Function("issubclass_dyn", Val, z3.StringSort(), z3.BoolSort())
+        return R(st, V(BoolV(f(a[0].t, z3.StringVal(names or "?"))), "bool"))
+
     def bi_isinstance(self, st, a, kw, n):
         cnode = n.args[1]
         if isinstance(cnode, ast.Name) and isinstance(st.env.get(cnode.id), V):
